@@ -17,15 +17,27 @@ Cells are canonicalised before any comparison (documented in ``canon``): numpy a
 numpy scalar <-> Python scalar, pandas.Timestamp <-> datetime with the same wall clock fields and
 UTC offset, Decimal by exact value.  The expected cells are pyarrow's own ``table.to_pylist()``.
 The pyarrow/pandas cell conversion is external glue: compared, not modelled.
+
+`process_table` (compiled.pyx, cannot be rebuilt here) is additionally executed from the working
+tree's *source*: a plain-Python transcription of the `.pyx` lines (`load_shadow`) replaces the binary
+in a second run of every `iter`/`big` case.  The oracle is evaluated on both runs; binary and source
+differing while the oracle is quiet is reported as a disagreement ("binary stale or source changed").
+
+Column types outside the property's list (large_binary, large_list, fixed_size_list, struct, map,
+duration, time, dictionary, string_view — `EXT_TYPES`) are exercised too: row count, order, the size
+cut, names and nullability are demanded as for any table; their *cells* are compared and differences
+only counted (`ext-cell-differs:*` in the evidence), because the statement does not speak about them.
 """
 import datetime
 import decimal
 import itertools
+import os
+import re
 import warnings
 from fractions import Fraction
 
 from .. import wire
-from ..core import InfraError, match_known, shrink
+from ..core import REPO, InfraError, match_known, shrink
 
 warnings.filterwarnings("ignore")
 
@@ -37,6 +49,11 @@ PANDAS_NS_MIN_US = -9223372036854776  # 1677-09-21T00:12:43.145224Z, lower end o
 ORSO_TYPES = ["ARRAY", "BLOB", "BOOLEAN", "DATE", "DECIMAL", "DOUBLE", "INTEGER", "INTERVAL", "STRUCT",
               "TIMESTAMP", "TIME", "VARCHAR", "NULL", "JSONB", "_MISSING_TYPE"]
 CARRIED_AS_BINARY = ("STRUCT", "JSONB")
+# column kinds outside the property's list: rows/order/names demanded, cells only compared and counted
+EXT_TYPES = ("large_binary", "large_list<int64>", "fixed_list<int64,2>", "list<large_string>", "struct", "map",
+             "duration[us]", "time32[ms]", "time64[us]", "dict<string>", "string_view")
+# Arrow types arrow_type_map has no entry for: from_arrow raises ValueError (tied to the model by the `field` cases)
+REJECTED_TYPES = ("dict<string>", "string_view")
 
 
 # --------------------------------------------------------------------------- building inputs
@@ -72,6 +89,26 @@ def arrow_type(ctype):
         return pa.decimal128(int(p), int(s))
     if ctype.startswith("list<"):
         return pa.list_(arrow_type(ctype[5:-1]))
+    if ctype == "large_binary":
+        return pa.large_binary()
+    if ctype == "large_list<int64>":
+        return pa.large_list(pa.int64())
+    if ctype == "fixed_list<int64,2>":
+        return pa.list_(pa.int64(), 2)
+    if ctype == "struct":
+        return pa.struct([("a", pa.int64()), ("b", pa.string())])
+    if ctype == "map":
+        return pa.map_(pa.string(), pa.int64())
+    if ctype == "duration[us]":
+        return pa.duration("us")
+    if ctype == "time32[ms]":
+        return pa.time32("ms")
+    if ctype == "time64[us]":
+        return pa.time64("us")
+    if ctype == "dict<string>":
+        return pa.dictionary(pa.int32(), pa.string())
+    if ctype == "string_view":
+        return pa.string_view()
     raise ValueError("unknown column type " + ctype)
 
 
@@ -88,8 +125,30 @@ def _check_cells(ctype, cells):
             ok = isinstance(c, str)
         elif ctype == "bool":
             ok = isinstance(c, bool)
-        elif ctype == "binary":
+        elif ctype in ("binary", "large_binary"):
             ok = isinstance(c, bytes)
+        elif ctype in ("dict<string>", "string_view"):
+            ok = isinstance(c, str)
+        elif ctype == "duration[us]":
+            ok = isinstance(c, int) and not isinstance(c, bool) and abs(c) < 2**62
+        elif ctype == "time32[ms]":
+            ok = isinstance(c, int) and not isinstance(c, bool) and 0 <= c < 86400000
+        elif ctype == "time64[us]":
+            ok = isinstance(c, int) and not isinstance(c, bool) and 0 <= c < 86400000000
+        elif ctype in ("large_list<int64>", "fixed_list<int64,2>"):
+            ok = isinstance(c, list) and (ctype != "fixed_list<int64,2>" or len(c) == 2)
+            if ok:
+                _check_cells("int64", c)
+        elif ctype == "struct":
+            ok = isinstance(c, dict) and list(c) == ["a", "b"]
+            if ok:
+                _check_cells("int64", [c["a"]])
+                _check_cells("string", [c["b"]])
+        elif ctype == "map":
+            ok = isinstance(c, list) and all(isinstance(kv, list) and len(kv) == 2 and isinstance(kv[0], str) for kv in c) \
+                and len({kv[0] for kv in c}) == len(c)
+            if ok:
+                _check_cells("int64", [kv[1] for kv in c])
         elif ctype.startswith("list<"):
             ok = isinstance(c, list)
             if ok:
@@ -112,6 +171,14 @@ def mk_array(ctype, cells):
         return pa.array([None if c is None else c * 86400000 for c in cells], type=pa.int64()).cast(t)
     if ctype.startswith("decimal128("):
         return pa.array([None if c is None else decimal.Decimal(c) for c in cells], type=t)
+    if ctype == "dict<string>":
+        return pa.array(cells, type=pa.string()).dictionary_encode()
+    if ctype == "map":
+        return pa.array([None if c is None else [(k, v) for k, v in c] for c in cells], type=t)
+    if ctype in ("duration[us]", "time64[us]"):
+        return pa.array(cells, type=pa.int64()).cast(t)
+    if ctype == "time32[ms]":
+        return pa.array(cells, type=pa.int32()).cast(t)
     return pa.array(cells, type=t)
 
 
@@ -161,7 +228,8 @@ def canon(v):
     numpy scalar -> Python scalar; numpy array / tuple -> list; datetime (pandas.Timestamp is one)
     -> naive: ["ts", y, m, d, H, M, S, us, ns], zone-aware: ["tsz", instant in us since the epoch, ns]
     (equal instants are equal); date -> ["date", y, m, d];
-    Decimal -> ["dec", exact value as a fraction]; NaT -> ["NaT"].
+    Decimal -> ["dec", exact value as a fraction]; NaT -> ["NaT"]; timedelta (pandas.Timedelta is one) ->
+    ["td", microseconds, ns]; time -> ["time", H, M, S, us].
     """
     import numpy
 
@@ -195,6 +263,10 @@ def canon(v):
         return ["tsz", (d.days * 86400 + d.seconds) * 1000000 + d.microseconds, ns]
     if isinstance(v, datetime.date):
         return ["date", v.year, v.month, v.day]
+    if isinstance(v, datetime.timedelta):  # pandas.Timedelta is one
+        return ["td", (v.days * 86400 + v.seconds) * 1000000 + v.microseconds, int(getattr(v, "nanoseconds", 0))]
+    if isinstance(v, datetime.time):
+        return ["time", v.hour, v.minute, v.second, v.microsecond]
     if isinstance(v, decimal.Decimal):
         return ["dec", str(Fraction(v)) if v.is_finite() else str(v)]
     if isinstance(v, (list, tuple)):
@@ -244,9 +316,15 @@ def classify_cell(ctype, exp, got, column_has_null, column_has_nested_null=False
 # --------------------------------------------------------------------------- implementation adaptors
 
 
+def cols_of(case, ti):
+    """Column definitions of table `ti` (the `cols_by_table` override documents what from_arrow does
+    with tables whose schema differs from the first table's)."""
+    return case.get("cols_by_table", {}).get(str(ti), case["cols"])
+
+
 def build_tables(case):
-    cols = case["cols"]
-    return [mk_table(cols, chunks, stagger=case.get("stagger", False)) for chunks in case["tables"]]
+    return [mk_table(cols_of(case, ti), chunks, stagger=case.get("stagger", False))
+            for ti, chunks in enumerate(case["tables"])]
 
 
 def expected_rows_of(tables):
@@ -259,10 +337,97 @@ def expected_rows_of(tables):
     return out
 
 
-def run_iter_impl(case, tables):
-    """-> dict(rows, names, nullable) or dict(raised=...)"""
+# ---- process_table from the working tree's source (the binary cannot be rebuilt here)
+
+_SHADOW = {}
+
+C_TYPES = r"(?:unsigned\s+)?(?:int|long|short|char|float|double|bint|object|list|tuple|dict|str|bytes|Py_ssize_t|size_t|u?int\d+_t)"
+
+
+def _pyx_function(name):
+    path = os.path.join(REPO, "orso", "compute", "compiled.pyx")
+    lines = open(path, encoding="utf-8").read().split("\n")
+    start = next((i for i, l in enumerate(lines) if re.match(r"(?:def|cpdef|cdef)\s+(?:[\w\.]+\s+)*%s\s*\(" % name, l)), None)
+    if start is None:
+        raise KeyError("no top-level %s in compiled.pyx" % name)
+    end = len(lines)
+    for i in range(start + 1, len(lines)):
+        if lines[i] and not lines[i][0].isspace() and not lines[i].startswith(")"):
+            end = i
+            break
+    return start + 1, lines[start:end], lines
+
+
+def load_shadow():
+    """process_table as plain Python, transcribed line by line from the current compiled.pyx.
+
+    Handles exactly the Cython idioms that function uses: C types in the signature, `cdef <type>
+    name [= expr]` declarations, `<type>` casts.  Anything else makes the transcription fail to
+    compile, which is reported (`unavailable`) and leaves the binary alone under test.
+    Returns dict(fn=callable | None, status=str, stale=[...] | None).
+    """
+    if _SHADOW:
+        return _SHADOW
+    _SHADOW.update({"fn": None, "status": "unavailable", "stale": None})
+    try:
+        first, body, all_lines = _pyx_function("process_table")
+        out = []
+        for i, l in enumerate(body):
+            if i == 0 or (out and out[0].count("(") > "".join(out).count(")") and not l.lstrip().startswith(("\"", "'"))):
+                # signature (possibly spanning lines): drop C types of parameters, `cpdef`/`cdef` -> def
+                if "".join(out).count("(") > "".join(out).count(")") or i == 0:
+                    l = re.sub(r"^(?:cpdef|cdef)\s+(?:[\w\.]+\s+)*?(?=\w+\s*\()", "def ", l)
+                    l = re.sub(r"(?<=[(,])\s*%s\s+(?=\w)" % C_TYPES, " ", l)
+            m = re.match(r"(\s*)cdef\s+%s(?:\[[^\]]*\])?\s+(\w+)\s*(=.*)?$" % C_TYPES, l)
+            if m:
+                l = "%s%s %s" % (m.group(1), m.group(2), m.group(3) or "= None")
+            l = re.sub(r"<\s*%s\s*\*?\s*>" % C_TYPES, "", l)
+            out.append(l)
+        src = "\n".join(out) + "\n"
+        import numpy
+
+        glob = {"np": numpy, "numpy": numpy}
+        for l in all_lines:  # plain module-level imports of the .pyx (not cimport)
+            if re.match(r"(?:import\s+\w|from\s+[\w\.]+\s+import\s)", l) and "cimport" not in l and "cython" not in l:
+                try:
+                    exec(l, glob)
+                except Exception:
+                    pass
+        exec(compile(src, "compiled.pyx:process_table(shadow)", "exec"), glob)
+        _SHADOW["fn"] = glob["process_table"]
+        _SHADOW["status"] = "process_table transcribed from compiled.pyx lines %d-%d" % (first, first + len(body) - 1)
+        _SHADOW["source"] = [l.strip() for l in body if l.strip() and not l.strip().startswith("#")]
+    except Exception as e:
+        _SHADOW["status"] = "unavailable: %s: %s" % (type(e).__name__, str(e)[:120])
+        return _SHADOW
+    # does the binary reflect this source?  Cython embeds the source lines in compiled.c
+    try:
+        cfile = os.path.join(REPO, "orso", "compute", "compiled.c")
+        ctext = open(cfile, encoding="utf-8", errors="replace").read()
+        embedded = {}
+        for m in re.finditer(r'/\* "orso/compute/compiled\.pyx":(\d+)\n((?: \*[^\n]*\n)+?) ?\*/', ctext):
+            for l in m.group(2).split("\n"):
+                if "# <<<<<<<<<<<<<<" in l:
+                    embedded[int(m.group(1))] = l[3:].split("# <<<<<<<<<<<<<<")[0].strip()
+        diffs = []
+        for k, l in enumerate(body):
+            n = first + k
+            if n in embedded and embedded[n] != l.strip():
+                diffs.append("line %d: source %r, binary built from %r" % (n, l.strip(), embedded[n]))
+        mine = [embedded[n] for n in sorted(embedded) if first <= n < first + len(body)]
+        if not mine:
+            diffs.append("no embedded source lines found for process_table")
+        _SHADOW["stale"] = diffs
+    except OSError:
+        _SHADOW["stale"] = None
+    return _SHADOW
+
+
+def run_iter_impl(case, tables, process_table=None):
+    """-> dict(rows, names, nullable) or dict(raised=...).  `process_table`: run with this function in
+    place of the compiled one (the transcription of the .pyx source)."""
+    import orso.converters as oc
     from orso import DataFrame
-    from orso.converters import from_arrow
 
     via = case.get("via", "from_arrow")
     size = case.get("size")
@@ -273,14 +438,30 @@ def run_iter_impl(case, tables):
         arg = tuple(tables)
     elif via == "single":
         arg = tables[0]
+    saved = oc.process_table
+    if process_table is not None:
+        oc.process_table = process_table
     try:
         if via == "DataFrame":
             df = DataFrame.from_arrow(arg)
             rows = [[canon(c) for c in r] for r in df]
             schema = df.schema
             names = list(df.column_names) if schema else []
+        elif via == "DataFrame.arrow":
+            # a frame lazily backed by the Arrow iterator, converted back with arrow(size)
+            df = DataFrame.from_arrow(arg)
+            schema = df.schema
+            try:
+                table = df.arrow() if size is None else df.arrow(size)
+            except Exception as e:
+                return {"lazy_arrow_raised": "%s: %s" % (type(e).__name__, str(e)[:120]),
+                        "names": list(schema.column_names), "nullable": [bool(c.nullable) for c in schema.columns]}
+            pys = [table.column(j).to_pylist() for j in range(table.num_columns)]
+            rows = [[canon(p[i]) for p in pys] for i in range(table.num_rows)]
+            return {"rows": rows, "names": list(table.column_names), "arrow_rows": table.num_rows,
+                    "nullable": [bool(c.nullable) for c in schema.columns]}
         else:
-            it, schema = from_arrow(arg, size) if size is not None else from_arrow(arg)
+            it, schema = oc.from_arrow(arg, size) if size is not None else oc.from_arrow(arg)
             rows = [[canon(c) for c in r] for r in it]
             names = list(schema.column_names) if schema else []
         nullable = [bool(c.nullable) for c in schema.columns] if schema else []
@@ -289,6 +470,21 @@ def run_iter_impl(case, tables):
         raise
     except Exception as e:
         return {"raised": "%s: %s" % (type(e).__name__, str(e)[:200])}
+    finally:
+        oc.process_table = saved
+
+
+def wire_same_loose(a, b):
+    """Structural equality of canonical outputs (NaN equals NaN, -0.0 differs from 0.0, bool is not int)."""
+    if isinstance(a, dict) and isinstance(b, dict):
+        return list(a) == list(b) and all(wire_same_loose(a[k], b[k]) for k in a)
+    if isinstance(a, (list, tuple)) and isinstance(b, (list, tuple)):
+        return len(a) == len(b) and all(wire_same_loose(x, y) for x, y in zip(a, b))
+    if type(a) is not type(b):
+        return False
+    if isinstance(a, float):
+        return wire.fbits(a) == wire.fbits(b)
+    return a == b
 
 
 def mirror_rows(all_rows, size):
@@ -296,13 +492,36 @@ def mirror_rows(all_rows, size):
 
 
 def iter_oracle(case, tables, out):
-    """The property on the implementation's own output.  Returns a list of (clause, detail)."""
-    if "raised" in out:
-        return [("from_arrow raised", {"error": out["raised"]})]
+    """The property on the implementation's own output.  Returns a list of (clause, detail).
+    Side channel: out["obs"] collects observations that are counted, not demanded."""
+    obs = out.setdefault("obs", [])
     cols = case["cols"]
-    exp = mirror_rows(expected_rows_of(tables), case.get("size"))
+    if "cols_by_table" in case:
+        # tables whose schema differs from the first table's: outside the quantifier; observed only
+        if "raised" in out:
+            obs.append("schema-differs:raised")
+        else:
+            exp = mirror_rows(expected_rows_of(tables), case.get("size"))
+            same = len(exp) == len(out["rows"]) and all(
+                len(a) == len(b) and all(cell_ok(x, y) for x, y in zip(a, b)) for a, b in zip(exp, out["rows"]))
+            first = out["names"] == list(tables[0].column_names)
+            obs.append("schema-differs:" + ("rows-of-every-table-streamed-unchanged" if same else "rows-changed")
+                       + (",schema-of-first-table" if first else ",other-schema"))
+        return []
+    rejected = [c["type"] for c in cols if c["type"] in REJECTED_TYPES]
+    if "raised" in out:
+        if rejected and out["raised"].startswith("ValueError: Unable to map"):
+            obs.append("ext-rejected:" + rejected[0])  # no entry in arrow_type_map (see the `field` cases)
+            return []
+        return [("from_arrow raised", {"error": out["raised"]})]
+    if "lazy_arrow_raised" in out:
+        obs.append("lazy-arrow-raised:" + out["lazy_arrow_raised"].split(":")[0])
+        return []
+    size = case.get("size")
+    exp = mirror_rows(expected_rows_of(tables), size)
     got = out["rows"]
     fails = []
+    lazy_arrow = case.get("via") == "DataFrame.arrow"
     if len(got) != len(exp):
         fails.append(("row count differs from the number of Arrow rows cut to size", {"got": len(got), "expected": len(exp)}))
         return fails
@@ -317,6 +536,12 @@ def iter_oracle(case, tables, out):
             break
         for j, (a, b) in enumerate(zip(e, g)):
             if not cell_ok(a, b):
+                if lazy_arrow:
+                    obs.append("lazy-arrow-cell-differs:" + cols[j]["type"].split("(")[0].split("[")[0])
+                    continue
+                if cols[j]["type"] in EXT_TYPES:
+                    obs.append("ext-cell-differs:" + cols[j]["type"])
+                    continue
                 ti = origin[i]
                 has_null = tables[ti].column(j).null_count > 0
                 nested = cols[j]["type"].startswith("list<") and any(
@@ -350,6 +575,10 @@ def iter_model_line(case, tables):
             chunks.append([[canon(p[i]) for p in pys] for i in range(pos, pos + len(ch))])
             pos += len(ch)
         enc_tables.append(chunks)
+    if case.get("via") == "DataFrame.arrow":
+        # from_arrow (no size) then arrow(size): the rows of all tables, then to_arrow's limit
+        names = list(tables[0].column_names)
+        return "C11 roundtrip " + wire.line(names, [r for t in enc_tables for ch in t for r in ch], case.get("size"))
     return "C11 iter " + wire.line(enc_tables, case.get("size"))
 
 
@@ -619,7 +848,9 @@ def valid_case(c):
                 return False
             if not isinstance(c["tables"], list) or c.get("via") == "single" and len(c["tables"]) != 1:
                 return False
-            if c.get("via", "from_arrow") not in ("from_arrow", "DataFrame", "generator", "tuple", "single"):
+            if c.get("via", "from_arrow") not in ("from_arrow", "DataFrame", "generator", "tuple", "single", "DataFrame.arrow"):
+                return False
+            if c.get("via") == "DataFrame.arrow" and not c["tables"]:
                 return False
             if c.get("via") == "DataFrame" and c.get("size") is not None:
                 return False
@@ -661,6 +892,19 @@ def _impl_and_fails(case):
         c2 = case if k == "iter" else dict(case, cols=[{"name": "a", "type": "int64"}, {"name": "b", "type": "string"}])
         out = run_iter_impl(c2, tables)
         fails = iter_oracle(c2, tables, out)
+        sh = load_shadow()
+        # (the exhaustive split family repeats the same tables for every size: the source run is made for
+        # the sizes that change the batching most)
+        if sh["fn"] is not None and not (k == "iter" and case["cols"] == SPLIT_COLS and case.get("size") not in (None, 1, 2)):
+            out_s = run_iter_impl(c2, tables, process_table=sh["fn"])
+            fails_s = iter_oracle(c2, tables, out_s)
+            have = {cl for cl, _ in fails}
+            fails = fails + [(cl, dict(d, process_table="as transcribed from compiled.pyx, not the binary"))
+                             for cl, d in fails_s if cl not in have]
+            a = {k: out.get(k) for k in ("rows", "raised", "names", "lazy_arrow_raised")}
+            b = {k: out_s.get(k) for k in ("rows", "raised", "names", "lazy_arrow_raised")}
+            if not wire_same_loose(a, b):
+                out["shadow_differs"] = {"binary": a, "source": b}
         return out, fails, iter_model_line(case, tables), ("rows", out.get("rows"), mirror_rows(expected_rows_of(tables), case.get("size")))
     if k == "roundtrip":
         out, rows = run_roundtrip_impl(case)
@@ -680,7 +924,7 @@ def focus_candidates(case, detail):
     j = (detail or {}).get("col")
     if j is None:
         return
-    if case["kind"] == "iter":
+    if case["kind"] == "iter" and "cols_by_table" not in case:
         col = dict(case["cols"][j])
         tabs = [[[[r[j]] for r in ch] for ch in t] for t in case["tables"]]
         ti = detail.get("table", 0)
@@ -718,13 +962,33 @@ def evaluate(ctx, cases):
         # ---- model vs mirror (implementation out of the picture), then model vs implementation
         if k in ("iter", "big"):
             _, got_rows, mirror = cmp_
-            if not wire.same(m[0], mirror):
-                raise InfraError("Lean iterator model disagrees with the Python mirror on %r" % (c,))
+            lazy_arrow = c.get("via") == "DataFrame.arrow"
+            mrows = m[2] if lazy_arrow else m[0]  # `roundtrip` op answers [names, num_rows, rows]
+            if not wire.same(mrows, mirror) or (lazy_arrow and m[1] != len(mirror)):
+                # The model is assembled from expressions generated from the source, so it can follow a
+                # changed source away from the specification.  Model wrong while the implementation is
+                # right = a harness/model bug (exit 2); otherwise the source moved: report it.
+                impl_right = got_rows is not None and len(got_rows) == len(mirror) and not fails
+                if impl_right:
+                    raise InfraError("Lean iterator model disagrees with the Python mirror on %r" % (c,))
+                ctx.disagree(c, got_rows, mrows, what="the model generated from the source departs from the specification "
+                                                     "(rows of all tables cut to size) on this input")
             nrows = len(mirror)
             nontrivial = nrows >= 1 and (k == "big" or len(c["tables"]) >= 1)
-            model_view, impl_view = m[0], got_rows
-            agree = got_rows is not None and len(got_rows) == len(m[0]) and all(
-                len(a) == len(b) and all(cell_ok(x, y) for x, y in zip(a, b)) for a, b in zip(m[0], got_rows))
+            model_view, impl_view = mrows, got_rows
+            observed_only = lazy_arrow or "cols_by_table" in c or got_rows is None and not fails
+            ext_cols = [j for j, col in enumerate(c.get("cols", [])) if col["type"] in EXT_TYPES] if k == "iter" else []
+            agree = observed_only or (got_rows is not None and len(got_rows) == len(mrows) and all(
+                len(a) == len(b) and all(j in ext_cols or cell_ok(x, y) for j, (x, y) in enumerate(zip(a, b)))
+                for a, b in zip(mrows, got_rows)))
+            if lazy_arrow and got_rows is not None:
+                agree = len(got_rows) == len(mrows) and out.get("arrow_rows") == m[1] and out["names"] == m[0]
+            for ob in out.get("obs", []):
+                ctx.hit(ob)
+            if out.get("shadow_differs") and not fails:
+                ctx.disagree(c, out["shadow_differs"]["binary"], out["shadow_differs"]["source"],
+                             what="the compiled process_table and its compiled.pyx source (transcribed) give different "
+                                  "results: the binary is stale or the source changed")
             ctx.hit("kind:" + k)
             ctx.hit("via:" + c.get("via", "from_arrow"))
             total = sum(len(ch) for t in c["tables"] for ch in t) if k == "iter" else c["n"]
@@ -735,7 +999,7 @@ def evaluate(ctx, cases):
                 empties = [i for i, t in enumerate(c["tables"]) if sum(len(ch) for ch in t) == 0]
                 if empties:
                     ctx.hit("empty-table:" + ("first" if 0 in empties else "later"))
-                if m[0] != m[1]:
+                if not lazy_arrow and m[0] != m[1]:
                     ctx.hit("pinned-iterator-would-lose-rows")
                 for col in c["cols"]:
                     ctx.hit("coltype:" + col["type"].split("(")[0].split("[")[0])
@@ -743,12 +1007,18 @@ def evaluate(ctx, cases):
                     ctx.hit("staggered-chunk-layout")
                 if any(len(t) != 1 for t in c["tables"]):
                     ctx.hit("multi-chunk-table")
+                if any(len(t) >= 10 for t in c["tables"]):
+                    ctx.hit("many-small-batches")
         elif k == "roundtrip":
             _, o, rows = cmp_
             size = c.get("size")
             mirror = [[canon(x) for x in r] for r in (rows if size is None else rows[:size])]
             if not wire.same(m[2], mirror) or m[0] != list(c["names"]):
-                raise InfraError("Lean to_arrow/from_arrow model disagrees with the Python mirror on %r" % (c,))
+                impl_right = "raised" not in o and not fails
+                if impl_right:
+                    raise InfraError("Lean to_arrow/from_arrow model disagrees with the Python mirror on %r" % (c,))
+                ctx.disagree(c, o, {"names": m[0], "rows": m[2]},
+                             what="the model generated from the source departs from the specification (rows[:size]) on this input")
             nontrivial = len(rows) >= 1
             model_view, impl_view = {"names": m[0], "arrow_rows": m[1], "rows": m[2]}, o
             agree = "raised" not in o and o["names"] == m[0] and o["arrow_names"] == m[0] and o["arrow_rows"] == m[1] \
@@ -893,6 +1163,8 @@ def exhaustive_field_cases():
             yield {"kind": "field", "arrow": d, "name": "m", "nullable": True, "mappable": mp}
 
 
+EXT_COLTYPES = list(EXT_TYPES)
+
 COLTYPES = ["int64", "int64", "int32", "int16", "int8", "uint64", "uint32", "uint16", "uint8", "float64", "float32", "string", "large_string", "bool",
             "binary", "timestamp[us]", "timestamp[ns]", "timestamp[ms]", "timestamp[us,UTC]", "timestamp[us,Europe/Paris]",
             "date32", "date64", "decimal128(10,2)", "decimal128(38,0)", "decimal128(5,5)", "list<int64>", "list<string>",
@@ -933,8 +1205,27 @@ def gen_cell(rng, ctype, null_p, allow_nan=True, nested_null=True):
         return rng.choice(TEXTS) if rng.random() < 0.6 else "".join(rng.choice("abcXYZ01 é日") for _ in range(rng.randint(0, 9)))
     if ctype == "bool":
         return rng.random() < 0.5
-    if ctype == "binary":
+    if ctype in ("binary", "large_binary"):
         return bytes(rng.getrandbits(8) for _ in range(rng.randint(0, 6)))
+    if ctype in ("dict<string>", "string_view"):
+        return rng.choice(["a", "b", "", "é", "long string " * 3])
+    if ctype == "duration[us]":
+        return rng.choice([0, 1, -5, 10**12, -86400000000, rng.randint(-2**50, 2**50)])
+    if ctype == "time32[ms]":
+        return rng.choice([0, 1000, 86399999, rng.randint(0, 86399999)])
+    if ctype == "time64[us]":
+        return rng.choice([0, 1, 86399999999, rng.randint(0, 86399999999)])
+    if ctype == "large_list<int64>":
+        return [gen_cell(rng, "int64", 0.15 if nested_null else 0.0) for _ in range(rng.choice([0, 1, 2, 3]))]
+    if ctype == "fixed_list<int64,2>":
+        return [gen_cell(rng, "int64", 0.15 if nested_null else 0.0) for _ in range(2)]
+    if ctype == "list<large_string>":
+        return [gen_cell(rng, "string", 0.15) for _ in range(rng.choice([0, 1, 2]))]
+    if ctype == "struct":
+        return {"a": gen_cell(rng, "int64", 0.2), "b": gen_cell(rng, "string", 0.2)}
+    if ctype == "map":
+        keys = rng.sample(["k", "a", "b", "é", ""], rng.choice([0, 1, 2, 3]))
+        return [[k, gen_cell(rng, "int64", 0.2)] for k in keys]
     if ctype.startswith("timestamp["):
         unit = ctype[len("timestamp["):-1].split(",")[0]
         if unit == "us":
@@ -970,6 +1261,13 @@ def split_random(rng, rows, max_tables):
             chunks = [part]
         elif r < 0.65:
             chunks = [] if not part else [part[:1], [], part[1:]]
+        elif r < 0.75 and len(part) >= 4:
+            # many small batches: chunks of 0..3 rows
+            chunks, pos = [], 0
+            while pos < len(part):
+                k = rng.choice([0, 1, 1, 2, 3])
+                chunks.append(part[pos:pos + k])
+                pos += k
         else:
             nc = rng.randint(1, 3)
             cc = sorted(rng.randint(0, len(part)) for _ in range(nc - 1))
@@ -979,17 +1277,23 @@ def split_random(rng, rows, max_tables):
     return tables
 
 
-def random_iter_case(ctx, quiet_known=False):
+def random_iter_case(ctx, quiet_known=False, ext=False):
     rng = ctx.rng
     ncols = rng.choice([1, 1, 2, 2, 3, 4])
     types = [rng.choice(COLTYPES) for _ in range(ncols)]
+    if ext:
+        # an exact row id first (order and count are demanded), then kinds outside the property's list
+        types = ["int64"] + [rng.choice(EXT_COLTYPES) for _ in range(rng.choice([1, 1, 2]))]
+        ncols = len(types)
     n = rng.choice([0, 1, 2, 3, 4, 5, 6, 8, 12, 20]) if rng.random() < 0.85 else rng.randint(21, 120)
     cols, columns = [], []
     for j, t in enumerate(types):
         null_p = rng.choice([0.0, 0.0, 0.2, 0.5, 1.0])
-        if quiet_known and t in INT_TYPES:
+        if (quiet_known and t in INT_TYPES) or (ext and j == 0):
             null_p = 0.0
         cells = [gen_cell(rng, t, null_p, nested_null=not quiet_known) for _ in range(n)]
+        if ext and j == 0:
+            cells = [2**53 + 1 + i for i in range(n)]
         has_null = any(c is None for c in cells)
         col = {"name": rng.choice(["a", "b", "c", "col", "é", "a b", ""]) + str(j), "type": t}
         if not has_null and rng.random() < 0.4:
@@ -1001,7 +1305,9 @@ def random_iter_case(ctx, quiet_known=False):
     size = rng.choice([None, None, 1, 2, n, n + 1, max(1, n - 1)] + ([rng.randint(1, n)] if n else []))
     case = {"kind": "iter", "cols": cols, "tables": tables, "size": size}
     r = rng.random()
-    if size is None and r < 0.3:
+    if r < 0.12 and tables:
+        case["via"] = "DataFrame.arrow"
+    elif size is None and r < 0.3:
         case["via"] = "DataFrame"
     elif r < 0.45:
         case["via"] = "generator"
@@ -1077,6 +1383,52 @@ CORPUS = [
 ]
 
 
+SCHEMA_DIFFERS = [
+    # what from_arrow does with tables whose schema differs from the first table's (observed, not demanded)
+    {"kind": "iter", "cols": [{"name": "a", "type": "int64"}], "size": None,
+     "cols_by_table": {"1": [{"name": "b", "type": "string"}, {"name": "c", "type": "float64"}]},
+     "tables": [[[[1], [2]]], [[["x", 1.5]]]]},
+    {"kind": "iter", "cols": [{"name": "a", "type": "int64"}], "size": 2,
+     "cols_by_table": {"1": [{"name": "a", "type": "float64"}]},
+     "tables": [[[[1]]], [[[2.5], [3.5]]]]},
+    {"kind": "iter", "cols": [{"name": "a", "type": "int64"}, {"name": "b", "type": "string"}], "size": None, "via": "DataFrame",
+     "cols_by_table": {"1": [{"name": "b", "type": "string"}, {"name": "a", "type": "int64"}]},
+     "tables": [[[[1, "x"]]], [[["y", 2]]]]},
+]
+
+
+def ext_type_cases():
+    """One deterministic table per column kind outside the property's list."""
+    import random
+
+    rng = random.Random(12)
+    for t in EXT_TYPES:
+        for null_p in (0.0, 0.4):
+            cells = [gen_cell(rng, t, null_p, nested_null=False) for _ in range(5)]
+            rows = [[2**53 + 1 + i, c] for i, c in enumerate(cells)]
+            cols = [{"name": "id", "type": "int64", "nullable": False}, {"name": "c", "type": t}]
+            yield {"kind": "iter", "cols": cols, "tables": [[rows[:2], []], [[]], [rows[2:3], rows[3:]]],
+                   "size": None if null_p == 0.0 else 4}
+
+
+def many_batches_cases():
+    """Chunked tables with many small batches (and batch sizes 1, 2, 7 through the size limit)."""
+    n = 30
+    rows = [[i, None if i % 5 == 0 else "r%d" % i] for i in range(n)]
+    cols = [{"name": "n", "type": "int64", "nullable": False}, {"name": "s", "type": "string"}]
+    one = [rows[i:i + 1] for i in range(n)]
+    mixed = []
+    for i in range(0, n, 3):
+        mixed += [rows[i:i + 2], [], rows[i + 2:i + 3]]
+    for chunks in (one, mixed):
+        for size in (None, 1, 2, 7, n - 1, n, n + 1):
+            for via in ("from_arrow", "DataFrame.arrow"):
+                if via == "DataFrame.arrow" and size not in (None, 7):
+                    continue
+                yield {"kind": "iter", "cols": cols, "tables": [chunks[:20], [], chunks[20:]], "size": size, "via": via,
+                       "stagger": size == 7}
+
+
 def per_type_cases():
     """One small deterministic table per column type of the quantifier: no nulls, nulls, two tables, a limit."""
     import random
@@ -1111,8 +1463,15 @@ def run(ctx):
                              "pyarrow type inference in Table.from_arrays) is external glue: compared cell by cell with "
                              "table.to_pylist() after the canonicalisation documented in harness/props/c11.py, not modelled",
                              "numeric pyarrow.lib.Type_* ids and the decimal128 precision range are read from the installed pyarrow"])
+    sh = load_shadow()
+    ctx.note("process_table_source_shadow", sh["status"])
+    ctx.note("process_table_binary_vs_source", "source lines embedded in compiled.c are identical to compiled.pyx"
+             if sh["stale"] == [] else ("no compiled.c to compare with" if sh["stale"] is None else sh["stale"][:10]))
     _batched(ctx, CORPUS)
     _batched(ctx, per_type_cases())
+    _batched(ctx, ext_type_cases())
+    _batched(ctx, many_batches_cases())
+    _batched(ctx, SCHEMA_DIFFERS)
     nmax, kmax = ctx.scale((6, 4), (6, 4))
     n_split = _batched(ctx, exhaustive_split_cases(nmax, kmax))
     n_type = _batched(ctx, exhaustive_type_cases(True))
@@ -1126,7 +1485,7 @@ def run(ctx):
     done = 0
     while done < n_iter and ctx.time_left() > 8:
         k = min(300, n_iter - done)
-        evaluate(ctx, [random_iter_case(ctx, quiet_known=(i % 2 == 0)) for i in range(k)])
+        evaluate(ctx, [random_iter_case(ctx, quiet_known=(i % 2 == 0), ext=(i % 5 == 4)) for i in range(k)])
         done += k
     done = 0
     while done < n_rt and ctx.time_left() > 3:
